@@ -556,3 +556,7 @@ def check(run, replay=None):
     run.require_counter("multi_pass_runs", 3)
     run.require_counter("do_index_half_turn_scans_through_zero:ideal", 1)
     run.require_counter("cell_bound_evaluated", 20)
+
+
+# workloads added in seeding rounds 7-10 (DESIGN.md sections 13.9-13.12)
+LEVEL_TEXT = LEVEL_TEXT + " Later additions: half-turn omega scans through 0 = 360 in do_index with the fraction such scans allow; noise class 'shell' (peaks just outside the tolerance sphere with every component inside)."
